@@ -5,5 +5,6 @@ import NflowsModel.Properties.C01J
 import NflowsModel.Properties.C01L
 import NflowsModel.Properties.C01N
 import NflowsModel.Properties.C01V
+import NflowsModel.Properties.C01M
 
 #audit_namespace Properties.C01
